@@ -215,6 +215,55 @@ def catalogue_leg(c, wd, ntp):
     sys.modules.pop(mod.__name__, None)
 
 
+def logged_snapshots_leg(c, wd):
+    """Tracepoints that collect AND log, several on one line, with a tracepoint logger that fails: every due snapshot is
+    still delivered, complete on its own (its table closed, its log fields recorded in its own table)."""
+    from . import c07
+    mod, path, marks = R.write_host(wd, HOST)
+    base = path.rsplit('/', 1)[-1]
+    for ntp, faulty in ((1, True), (2, True), (2, False), (3, True)):
+        logger = R.role_plugin('lg', {'log'}, faults={'log'} if faulty else set())
+        rg = R.Rig(plugins=[logger])
+        mod.H = ['Zo\u00eb']
+        try:
+            rg.install([{'id': 'tp-%d' % i, 'path': base, 'line': marks['holder'],
+                         'args': {'log_msg': 'case %d: {h} {a + %d} {z}' % (i, i)}, 'watches': ['a + 1'] if i % 2 else []}
+                        for i in range(ntp)])
+            res = rg.run(mod.holder, 'local', only_file=path)
+            snaps = rg.snapshots()
+            bad = None
+            if res != ('ok', 1) or rg.escaped:
+                bad = 'host changed / handler raised: %r %r' % (res, rg.escaped)
+            elif sorted(s.tracepoint.id for s in snaps) != ['tp-%d' % i for i in range(ntp)]:
+                bad = 'snapshots delivered for %s, %d tracepoint(s) were due (the tracepoint logger %s)' % (
+                    sorted(s.tracepoint.id for s in snaps), ntp, 'raises' if faulty else 'works')
+            else:
+                for s in snaps:
+                    bad = c07.table_problems(s, {})
+                    if bad:
+                        bad = '%s: %s' % (s.tracepoint.id, bad)
+                        break
+                    logs = [w for w in s.watches if w.source == 'LOG']
+                    if len(logs) != 3 or any(w.error is None and (w.result is None or w.result.vid not in s.var_lookup)
+                                             for w in logs):
+                        bad = '%s: log fields recorded as %s' % (s.tracepoint.id, [w.__dict__ for w in logs])
+                        break
+                    names = sorted(v.name for v in s.frames[0].variables)
+                    if names != ['a', 'h', 'place', 'z']:
+                        bad = '%s: top frame variables %s' % (s.tracepoint.id, names)
+                        break
+            c.traces_validated += 1
+            c.note_case(key=('logged-snapshots', ntp, faulty), nontrivial=True)
+            if bad:
+                p_ = c.save_replay({'direction': 'C2S', 'kind': 'logged-snapshots', 'tracepoints': ntp,
+                                    'logger_fails': faulty, 'what': bad})
+                c.violation('%d collecting+logging tracepoint(s) on one line, logger %s: %s' % (
+                    ntp, 'raising' if faulty else 'working', bad), p_)
+        finally:
+            rg.close()
+    sys.modules.pop(mod.__name__, None)
+
+
 def run(c):
     quick = c.tier == 'quick'
     rng = random.Random(c.seed)
@@ -236,6 +285,7 @@ def run(c):
            for _ in range(300 if quick else 30000)]
     traces, meta, sk = c05.run_instances(c, rnd, wd, 'random-hostile')
     c05.validate(c, traces, meta)
+    logged_snapshots_leg(c, wd)
     sim = tlc.simulate('Snapshot', c02.mc_cfg(d=2, k=3, cls=c02.ALL_CLS), num=40 if quick else 5000, depth=12, seed=c.seed + 7)
     c.transitions += sim.generated
     multi = [b for b in sim.behaviours if len(b[-1][2]['tps']) >= 2]
